@@ -527,5 +527,28 @@ def check(prop_name: str, tier: str, master: int, n_runs=None, out_evidence=True
     return 2 if harness_failed else 0
 
 
+def snapshot_module_state(mod):
+    """Deep copy of every module-level data attribute (not functions, classes, modules): lets the
+    harness put a module's global state back without knowing the names of its globals."""
+    import types
+
+    out = {}
+    for k, v in vars(mod).items():
+        if k.startswith("__") or isinstance(v, (types.FunctionType, types.ModuleType, type, types.BuiltinFunctionType)):
+            continue
+        if getattr(v, "__module__", None) == "typing":
+            continue
+        try:
+            out[k] = copy.deepcopy(v)
+        except Exception:
+            out[k] = v
+    return out
+
+
+def restore_module_state(mod, snap):
+    for k, v in snap.items():
+        setattr(mod, k, v)
+
+
 def deep(x):
     return copy.deepcopy(x)
